@@ -43,7 +43,8 @@ for _c in tr.CLASSES:
 OBLIGATIONS.update({"branch:power-lam": 50, "branch:yj-lam": 50,
                     "branch:manly-lam0": 10, "monotone-pairs": 1000,
                     "adjacent-floats": 50, "jacobian-before-forward": 100,
-                    "clipped-request": 100})
+                    "clipped-request": 100, "softmax:buffer-refilled": 10,
+                    "monotone:reused-object": 100})
 
 
 def call(fn, *a):
@@ -165,6 +166,7 @@ def run_config(ctx, case):
     # backward call, and the Jacobian of an object that was used with other
     # parameters first: both must be the derivative of the current forward
     Jfresh = Jreused = None
+    t_reused = None
     try:
         Jfresh = np.asarray(call(t.jacobian, x.copy()), dtype=float)
         _, hpar, _ = tr.gen_config(np.random.default_rng(int(case["seed"]) + 1), name,
@@ -181,6 +183,7 @@ def run_config(ctx, case):
                                                         t2.constants.values)})
             if a2 == actual:
                 Jreused = np.asarray(call(t2.jacobian, x.copy()), dtype=float)
+                t_reused = t2
     except Exception as e:
         ctx.check("jacobian.runs", False, f"{name}|jacobian-first-raises", case,
                   {"exc": repr(e), "params": actual})
@@ -256,6 +259,18 @@ def run_config(ctx, case):
         xs2 = np.unique(np.concatenate([xs, extra]))
         ctx.tag("adjacent-floats", len(extra))
         ys = np.asarray(call(t.forward, xs2.copy()), dtype=float)
+        if t_reused is not None:
+            # an object that served other parameters first (forward and Jacobian
+            # called), then got the present ones item by item, is the same function
+            ctx.tag("monotone:reused-object", len(xs2))
+            ysr = np.asarray(call(t_reused.forward, xs2.copy()), dtype=float)
+            with np.errstate(all="ignore"):
+                dif = np.where(~((ysr == ys) | (np.isnan(ysr) & np.isnan(ys)) |
+                                 (np.abs(ysr - ys) <= 1e-13 * np.abs(ys))))[0]
+            ctx.check("forward.history-independent", len(dif) == 0,
+                      f"{name}|forward-depends-on-call-history", case,
+                      lambda: {"x": float(xs2[dif[0]]), "fresh_object": float(ys[dif[0]]),
+                               "reused_object": float(ysr[dif[0]]), "params": actual})
         fin = np.isfinite(ys)
         # interior points of the domain (as the Jacobian defines it): forward must
         # give a value there, otherwise "increasing" is meaningless
@@ -327,6 +342,23 @@ def run_softmax(ctx, t, case, rng):
                   lambda: {"x": x.tolist(), "jacobian": J, "fd_determinant": det})
         ctx.evaluated(1)
         ctx.nontrivial("Softmax", x)
+        # one work buffer: forward on it, refill it in place with another point, then
+        # ask for the Jacobian there (no forward in between)
+        if rep % 3 == 0:
+            x2 = rng.dirichlet(np.ones(k + 1) * 2.0)[:k]
+            x2 = np.maximum(x2, 1e-3)
+            if x2.sum() <= 0.95:
+                buf = np.ascontiguousarray(x[None, :].copy())
+                call(t.forward, buf)
+                buf[...] = x2[None, :]
+                jb = float(np.asarray(call(t.jacobian, buf)).ravel()[0])
+                jf = float(np.asarray(call(t.jacobian, x2[None, :].copy())).ravel()[0])
+                ctx.tag("softmax:buffer-refilled")
+                ctx.api("Softmax.jacobian", 2)
+                ctx.check("jacobian.refilled-buffer", abs(jb - jf) <= 1e-12 * abs(jf),
+                          "Softmax|jacobian|stale-after-buffer-was-refilled", case,
+                          lambda: {"x_before": x.tolist(), "x_now": x2.tolist(),
+                                   "jacobian_same_buffer": jb, "jacobian_fresh": jf})
 
 
 def run(ctx):
